@@ -50,6 +50,7 @@ GhostInit(S) ==
    acc |-> EmptyFn,      \* key hash -> accesses delivered to the sketch in the current ageing window (system-level C14)
    accTotal |-> 0,       \* recorded accesses in the current window (TinyLFU::total_increments)
    evw |-> EmptyFn,      \* evicting actor -> id of the store entry its key had when it removed the key id from key_weights
+   loose |-> FALSE,      \* (lock-grain traces) a span with several effects was seen: only the state-level judges are evaluated from here on
    desync |-> {},        \* actors whose model-inferred locals cannot be trusted until they start their next command / operation
    smp |-> {},           \* ids in the sample the code logged last (entries kept from it carry the estimate they were sampled with)
    adm |-> [id |-> 0, w |-> 0],   \* the put the worker is admitting (set at A_Space, from the command it actually received)
@@ -315,6 +316,10 @@ J_C01(S, a, site, inp, S2, o, G, G2) ==
         ELSE <<>>)
     \o (IF site = "K_AddUsed" /\ S2.used > S2.cfg.max /\ SumCredit(G2, S2) = 0
         THEN <<V("C01", "violation", "", "an accepted put left the total above the limit")>> ELSE <<>>)
+    \* the total is the sum of the charged weights: when the running total has drifted below it, the bound on the total says nothing
+    \o (IF Quiescent(S2) /\ G2.dead = {} /\ S2.used <= S2.cfg.max
+           /\ SumSet([id \in DOMAIN S2.kw |-> S2.kw[id].w], DOMAIN S2.kw) > S2.cfg.max + SumCredit(G2, S2)
+        THEN <<V("C01", "violation", "", "the charged weights add up to more than the cache weight while the total reported as used is below it")>> ELSE <<>>)
 
 -----------------------------------------------------------------------------
 (* C02 / C04a: a read returns only a value that may legitimately be current *)
@@ -706,7 +711,7 @@ HugeAround(S, a) == S.lc[a].w >= Huge \/ S.lc[a].op.w >= Huge \/ S.used >= Huge 
 
 J_C17(S, a, site, inp, S2, o, G, G2) ==
   (IF o.next = "DEAD" /\ a \in {"worker", "sweeper", "consumer"}
-   THEN IF HugeAround(S, a) /\ site \in {"K_Update", "K_AddUsed", "K_DelUsed", "A_Space"}
+   THEN IF HugeAround(S, a) /\ site \in {"K_Update", "K_AddUsed", "K_DelUsed"}
         THEN <<V("C17", "known", "D10", "unchecked i64 weight arithmetic overflowed on a background thread")>>
         ELSE <<V("C17", "violation", "", "a background thread terminated by a panic")>> ELSE <<>>)
   \o (IF IsCaller(a) /\ o.next \in {"C_Idle", "DEAD"} /\ o.ret.panic
@@ -718,7 +723,18 @@ J_C17(S, a, site, inp, S2, o, G, G2) ==
 -----------------------------------------------------------------------------
 (* judges of the end of a run: every caller has finished its program (or nothing can move any more) *)
 
+\* what can be judged from the observed states alone (no ghost, no locals of the specification)
+JudgeLoose(S2, G2) ==
+  IF S2.shut \/ G2.shutSeen THEN <<>>
+  ELSE (IF S2.used < 0 THEN <<V("C01", "violation", "", "total weight used is negative")>> ELSE <<>>)
+    \o (IF Quiescent(S2) /\ G2.dead = {} /\ SumSet([id \in DOMAIN S2.kw |-> S2.kw[id].w], DOMAIN S2.kw) # S2.used
+        THEN <<V("C05", "violation", "", "total weight differs from the sum of the charged weights")>> ELSE <<>>)
+    \o (IF Quiescent(S2) /\ G2.dead = {} /\ S2.used <= S2.cfg.max
+           /\ SumSet([id \in DOMAIN S2.kw |-> S2.kw[id].w], DOMAIN S2.kw) > S2.cfg.max + SumCredit(G2, S2)
+        THEN <<V("C01", "violation", "", "the charged weights add up to more than the cache weight while the total reported as used is below it")>> ELSE <<>>)
+
 JudgeEnd(S, G, stuck) ==
+  IF G.loose THEN JudgeLoose(S, G) ELSE
   LET pending == {n \in DOMAIN S.ack : ~S.ack[n].done}
       workerPanicked == "worker" \in G.dead \/ S.pc["worker"] = "DEAD"
   IN (IF pending # {} /\ ~workerPanicked /\ G.shutDone
@@ -731,6 +747,7 @@ JudgeEnd(S, G, stuck) ==
 -----------------------------------------------------------------------------
 
 Judge(S, a, site, inp, S2, o, G, G2) ==
+  IF G.loose \/ G2.loose THEN JudgeLoose(S2, G2) ELSE
      J_C01(S, a, site, inp, S2, o, G, G2)
   \o J_C02(S, a, site, inp, S2, o, G, G2)
   \o J_C03(S, a, site, inp, S2, o, G, G2)
